@@ -272,7 +272,7 @@ def _cone(vfile: Path) -> list[Path]:
             continue
         seen.append(f)
         txt = f.read_text()
-        for m in re.finditer(r"From Verif Require (?:Import|Export)\s+([\w.\s]+?)\.(?=\s|$)", txt):
+        for m in re.finditer(r"From Verif Require (?:(?:Import|Export)\s+)?([\w.\s]+?)\.(?=\s|$)", txt):
             for mod in m.group(1).split():
                 todo.append(COQ / "theories" / (mod.replace(".", "/") + ".v"))
     return seen
